@@ -20,6 +20,10 @@ TYPES = {
     'smallInt': ('t:smallInt', 'int', ['t:smallInt', 'xs:integer', 'xs:decimal'], ['1', '5', '10']),
     'intList': ('t:intList', 'intlist', [], ['1 2 3', '7', '']),
     'intOrDate': ('t:intOrDate', 'union', [], ['12', '2000-01-01']),
+    'intBoolString': ('t:intBoolString', 'union', [], ['12', 'true', 'abc', '0']),
+    'integerOrDecimal': ('t:integerOrDecimal', 'union', [], ['7', '1.5', '-2.25']),
+    'shortOrDouble': ('t:shortOrDouble', 'union', [], ['12', '1.0E3', '70000']),
+    'boolOrInt': ('t:boolOrInt', 'union', [], ['true', '42', '0']),
 }
 TNS = 'http://example.com/t'
 
@@ -27,6 +31,10 @@ NAMED_TYPES = '''
  <xs:simpleType name="smallInt"><xs:restriction base="xs:integer"><xs:minInclusive value="1"/><xs:maxInclusive value="10"/></xs:restriction></xs:simpleType>
  <xs:simpleType name="intList"><xs:list itemType="xs:integer"/></xs:simpleType>
  <xs:simpleType name="intOrDate"><xs:union memberTypes="xs:integer xs:date"/></xs:simpleType>
+ <xs:simpleType name="intBoolString"><xs:union memberTypes="xs:int xs:boolean xs:string"/></xs:simpleType>
+ <xs:simpleType name="integerOrDecimal"><xs:union memberTypes="xs:integer xs:decimal"/></xs:simpleType>
+ <xs:simpleType name="shortOrDouble"><xs:union memberTypes="xs:short xs:double"/></xs:simpleType>
+ <xs:simpleType name="boolOrInt"><xs:union memberTypes="xs:boolean xs:int"/></xs:simpleType>
 '''
 
 # a second schema for the same vocabulary must accept the same instances: map every type to a supertype
@@ -34,7 +42,8 @@ SUPERTYPE = {
     'integer': 'decimal', 'int': 'integer', 'nonNegativeInteger': 'integer', 'decimal': 'string', 'double': 'string',
     'float': 'double', 'boolean': 'string', 'string': 'string', 'token': 'string', 'date': 'string',
     'dateTime': 'string', 'time': 'string', 'anyURI': 'string', 'smallInt': 'integer', 'intList': 'string',
-    'intOrDate': 'string',
+    'intOrDate': 'string', 'intBoolString': 'string', 'integerOrDecimal': 'string', 'shortOrDouble': 'string',
+    'boolOrInt': 'string',
 }
 
 
